@@ -7,6 +7,7 @@ from . import common
 
 GROUP = "g08"
 PROP_FILE = "C08.v"
+PROP_PARTS = ["C08_handover.v", "C08_converse.v", "C08_addr.v", "C08_once.v", "C08_free.v"]
 
 READER_VERDICTS = {
     1: "wf-header-rejected",
@@ -114,7 +115,8 @@ def run(ctx):
         ctx.log("tables:", msg)
         ob_failed.append("translator(gen/tables g08): " + msg)
     ok, log, failed = ctx.coq_make(GROUP)
-    core_broken = [f for f in failed if f not in (PROP_FILE, "Obligations.v")]
+    part_files = set(PROP_PARTS) | {PROP_FILE}
+    core_broken = [f for f in failed if f not in part_files and not f.startswith("Ob")]
     for f in failed:      # never leave a stale .vo of a file that no longer compiles behind
         try:
             os.remove(os.path.join(common.VERIF, "coq", GROUP, f[:-2] + ".vo"))
@@ -126,27 +128,36 @@ def run(ctx):
                                         os.path.join(common.VERIF, "coq", GROUP)])
     if bad_words:
         ob_failed.append("forbidden vernacular: " + "; ".join(bad_words))
-    info = ctx.check_theorems(GROUP, PROP_FILE)
-    if info["rc"] != 0:
-        ob_failed.append("theorem %s in %s no longer checks: %s" % (
-            info.get("failed_at"), PROP_FILE, " ".join(info["log"].split())[-500:]))
+    import re as _re
+    from concurrent.futures import ThreadPoolExecutor as _TPE
+    # table obligations: one per file Ob*.v
+    gdir = os.path.join(common.VERIF, "coq", GROUP)
+    ob_names, ob_ok = [], []
+    for fn in sorted(os.listdir(gdir)):
+        if fn.startswith("Ob") and fn.endswith(".v"):
+            for name in _re.findall(r"\bLemma\s+(ob_[A-Za-z0-9_']+)", common.strip_coq_comments(open(os.path.join(gdir, fn)).read())):
+                ob_names.append(name)
+                if fn in failed or not os.path.exists(os.path.join(gdir, fn[:-2] + ".vo")):
+                    ob_failed.append("table obligation %s (%s) no longer checks: the source no longer has the shape the proofs need" % (name, fn))
+                else:
+                    ob_ok.append(name)
+    # property theorems: the parts are checked one by one, so that a failing obligation un-discharges only its dependants
+    with _TPE(max_workers=len(PROP_PARTS)) as ex:
+        infos = list(ex.map(lambda f: ctx.check_theorems(GROUP, f), PROP_PARTS))
+    info = {"theorems": [], "discharged": [], "assumptions": {}, "rc": 0}
+    for f, inf in zip(PROP_PARTS, infos):
+        info["theorems"] += inf["theorems"]
+        info["discharged"] += inf["discharged"]
+        info["assumptions"].update(inf["assumptions"])
+        if inf["rc"] != 0:
+            info["rc"] = 1
+            ob_failed.append("theorems %s in %s are not discharged: %s" % (
+                ", ".join(inf["theorems"]), f, " ".join(inf["log"].split())[-300:]))
     if core_broken:
         ob_failed.append("model/proof files do not compile: %s\n%s" % (core_broken, log[-1500:]))
-    import re as _re
-    ob_src = common.strip_coq_comments(open(os.path.join(common.VERIF, "coq", GROUP, "Obligations.v")).read())
-    ob_names = _re.findall(r"\bLemma\s+(ob_[A-Za-z0-9_']+)", ob_src)
-    ob_ok = ob_names if "Obligations.v" not in failed and ok else []
-    if "Obligations.v" in failed:
-        m = _re.search(r'File "\./Obligations\.v", line (\d+)', log)
-        bad_ob = None
-        if m:
-            for i, l in enumerate(open(os.path.join(common.VERIF, "coq", GROUP, "Obligations.v")).read().splitlines()[:int(m.group(1))], 1):
-                mm = _re.match(r"\s*Lemma\s+(ob_[A-Za-z0-9_']+)", l)
-                if mm:
-                    bad_ob = mm.group(1)
-        ob_failed.append("table obligation %s in Obligations.v no longer checks (the source no longer has the shape the proofs need)" % bad_ob)
     ctx.log("theorems: %d/%d discharged, table obligations: %d/%d" % (
         len(info["discharged"]), len(info["theorems"]), len(ob_ok), len(ob_names)))
+    undischarged = [t for t in info["theorems"] if t not in info["discharged"]]
 
     coqchk = None
     if ctx.tier == "thorough" and not ctx.replay and info["rc"] == 0:
@@ -306,7 +317,7 @@ def run(ctx):
         "obligations": len(info["theorems"]) + len(ob_names),
         "discharged": len(info["discharged"]) + len(ob_ok),
         "table_obligations": ob_names,
-        "checker_cmd": "make -j16 (coq_makefile, full .vo) in coq/lib and coq/g08; coqc C08.v; coqc on %d cases shards (vm_compute)%s"
+        "checker_cmd": "make -j16 (coq_makefile, full .vo) in coq/lib and coq/g08; coqc on the five property parts C08_*.v; coqc on %d cases shards (vm_compute)%s"
                        % (sum(len(k["shards"]) for k in meta.get("kinds", [])), "; coqchk -silent -o G08.C08" if coqchk else ""),
         "trusted_base": common.standard_trusted_base([
             "Print Assumptions per theorem: %s" % json.dumps(info["assumptions"]),
@@ -315,6 +326,7 @@ def run(ctx):
             "Conn.readHeaderContext (tested end to end only), connfu.Combine, the martian accept loop",
         ]),
         "theorems": info["theorems"],
+        "theorems_not_discharged": undischarged,
         "coqchk": coqchk,
         "race_detector": race,
         "unchecked_obligations": ob_failed,
